@@ -840,7 +840,7 @@ func callsTaggedRequires(P *Program, db *ContractDB, fn *ssa.Function, id string
 			}
 			if callee.Pkg != nil && ownPkg(callee.Pkg.Pkg) {
 				if c, ok := db.funcs[shortName(callee)]; ok {
-					if requiresTagged(c, id) {
+					if requiresTagged(c, id) || hasTag(c.NoLocks, id) {
 						return true
 					}
 					continue
